@@ -55,8 +55,9 @@ DELIVERABLES, inside {wt}:
  * the source change itself, left UNCOMMITTED in the worktree (so that `git -C {wt} diff -- src` shows it);
  * {wt}/SEED/demo.py — a small stand-alone program (run as `cd {wt} && PYTHONPATH={wt}/src /venv/bin/python SEED/demo.py`) that checks the
    property on the triggering input/sequence using only the public API: it must exit 0 on the unchanged tree and exit non-zero
-   (with a message saying what is wrong) with your change.  Verify both yourself: `git -C {wt} stash` / `git -C {wt} stash pop` (take care that the
-   untracked SEED directory and src/pystog/_version.py stay in place).
+   (with a message saying what is wrong) with your change.  Verify both yourself WITHOUT `git stash` (the stash is shared between all worktrees of the repository and other
+   people work in sibling worktrees): `git -C {wt} diff -- src > {wt}/SEED/my.patch; git -C {wt} apply -R {wt}/SEED/my.patch` (clean tree),
+   run the demo, then `git -C {wt} apply {wt}/SEED/my.patch` (changed tree again), run the demo.
  * {wt}/SEED/README.md — what the change is, why it violates the property, exactly what is needed for it to manifest, and why the existing
    tests do not notice.
 
